@@ -83,7 +83,7 @@ func catalogue(w *world, check string) []kase {
 					mut := faults.Mut{Path: nd.Path, Op: name}
 					out = append(out, kase{Scenario: w.sc, Deviator: d, Slot: s, Path: nd.Path, Op: name, Menu: menu,
 						fault: faults.ContentFault(s, mut, ops[name], mode)})
-					if (check == "C04" || check == "C03") && !expensive && len(w.spec.IDs) >= 3 {
+					if !expensive && len(w.spec.IDs) >= 3 {
 						// the same alteration under the schedule in which the deviator's messages arrive early (queued at
 						// the victim and processed when somebody else's message completes the previous round)
 						f := faults.ContentFault(s, mut, ops[name], mode)
